@@ -41,6 +41,44 @@ def mvnSpec (x : Tensor) (dim : Nat) (mean std : List Rat) (eps : Rat) : Tensor 
       let i := (unravel x.shape k).getD dim 0
       (x.data.getD k 0 - mean.getD i 0) / max (std.getD i 0) eps) }
 
+/-! ## What the module holds after any sequence of `accumulate` / `store` calls -/
+
+/-- All frames of coefficient `i` in a list of chunks (each chunk = per-coefficient frame lists). -/
+def poolOf (chunks : List (List (List Rat))) (i : Nat) : List Rat := chunks.flatMap (fun c => c.getD i [])
+
+/-- Number of frames in a list of chunks. -/
+def framesOf (chunks : List (List (List Rat))) : Nat := (chunks.map (fun c => (c.headD []).length)).sum
+
+/-- The pooled mean and (biased or Bessel-corrected) variance of every coefficient. -/
+def pooledStats (chunks : List (List (List Rat))) (bessel : Bool) : List Rat × List Rat :=
+  let X := (chunks.headD []).length
+  ((List.range X).map (fun i => poolMean (poolOf chunks i)),
+   (List.range X).map (fun i => if bessel then poolVarBessel (poolOf chunks i) else poolVar (poolOf chunks i)))
+
+/-- `store(bessel)` succeeds iff something was accumulated and it holds the documented minimum
+number of frames (1, or 2 under Bessel's correction). -/
+def storeOk (pending : List (List (List Rat))) (bessel : Bool) : Bool :=
+  !pending.isEmpty && decide ((if bessel then 2 else 1) ≤ framesOf pending)
+
+/-- The chunks whose frames are in the buffers after the calls `ops`, starting with `pending`:
+everything accumulated since the last `store(delete_stats=True)` that did not raise. -/
+def pendingSpec (pending : List (List (List Rat))) : List MvnOp → List (List (List Rat))
+  | [] => pending
+  | .accumulate c :: ops => pendingSpec (pending ++ [c]) ops
+  | .store del bessel :: ops =>
+    if del && storeOk pending bessel then pendingSpec [] ops else pendingSpec pending ops
+
+/-- The stored statistics after the calls `ops`: those of the last `store` that did not raise —
+the pooled statistics of the chunks pending at that moment — else what was there before. -/
+def statsSpec (pending : List (List (List Rat))) (cur : Option (List Rat × List Rat)) :
+    List MvnOp → Option (List Rat × List Rat)
+  | [] => cur
+  | .accumulate c :: ops => statsSpec (pending ++ [c]) cur ops
+  | .store del bessel :: ops =>
+    if storeOk pending bessel then
+      statsSpec (if del then [] else pending) (some (pooledStats pending bessel)) ops
+    else statsSpec pending cur ops
+
 /-! ## Deltas -/
 
 /-- `Σ_{k=1..w} k · (e(t+k) − e(t−k))`. -/
